@@ -22,7 +22,7 @@ PID = "C01"
 LEVEL = "exploration"
 RULE = (
     "Cells are generated from VERIF_SEED, stratified so every target family {interior Gaussian (affine), wall-abutting truncated Gaussian, "
-    "separated bimodal, periodic von Mises incl. seam-centred, reflective truncated Gaussian, exp-transformed prior, zero-likelihood slab} and both kernels appear, x "
+    "separated bimodal, periodic von Mises incl. seam-centred, reflective truncated Gaussian, exp-transformed prior, zero-likelihood slab, likelihood 1000x narrower than the prior} and both kernels appear, x "
     "resampler x clustering, d in {1,2}; R independently seeded full runs per cell at N=64 (thorough: also N=256 for a third of the cells). "
     "evaluations = sampler runs; non-trivial = a run that passed through >= 3 distinct temperatures and ended with posterior ESS >= n_total; "
     "distinct = distinct (cell, replica seed)."
@@ -39,12 +39,13 @@ A_COEF = 3.0
 def cells_for(tier, seed):
     rng = np.random.default_rng([seed, 101])
     fams = list(ens.FAMILIES)
-    n = 14 if tier == "quick" else 42
+    n = 16 if tier == "quick" else 48
     cells = []
     for i in range(n):
         fam = fams[i % len(fams)]
         kernel = ["tpcn", "rwm"][(i // len(fams) + i) % 2]
         cells.append(ens.make_cell(int(rng.integers(0, 2**31 - 1)), family=fam, kernel=kernel, clustering=bool((i // 2 + i // len(fams)) % 2),
+                                   resample=["mult", "syst"][(i + i // len(fams)) % 2] if fam != "narrow" else ["syst", "mult"][(i // len(fams)) % 2],
                                    N=64 if (tier == "quick" or i % 3) else 256))
     # one large-N interior cell in every tier: the finite-particle allowance is small there, which is what lets the paired
     # trimmed-vs-untrimmed comparison (and the absolute test) resolve a bias of a few per cent
